@@ -251,7 +251,7 @@ def execute(plan: dict) -> dict:
             faults=plan.get("faults"), fault_policy=_fault_policy(plan),
             bufsize=int(knobs.get("bufsize", 8192)), max_io=int(knobs.get("max_io", 1 << 30)),
             step_cap=int(knobs.get("step_cap", 40000 if knobs.get("big") else 4000)),
-            watchdog_s=600.0 if knobs.get("big") else 120.0,
+            watchdog_s=1800.0 if knobs.get("big") else 900.0,
         )
         sim.pre_faults = 0  # type: ignore[attr-defined]
         results: Dict[str, repo.RunResult] = {}
